@@ -120,14 +120,22 @@ def _and_const(ta: Any, m: int) -> Any:
         t = parts[0]
         for q in parts[1:]:
             t = t + q
-        tz = _mask_runs(m)[0][0]
-        return mk_int(t, tz)
+        runs = _mask_runs(m)
+        tz = runs[0][0]
+        r = mk_int(t, tz)
+        if isinstance(r, SInt) and len(runs) == 1:
+            r.bits = ("within", runs[0][0], runs[0][1])
+        return r
     # negative mask: x & m == x - (x & ~m), ~m >= 0
     nm = ~m
     if nm == 0:
         return mk_int(ta)
     r = _and_const(ta, nm)
-    return mk_int(ta - int_term(r))
+    out = mk_int(ta - int_term(r))
+    runs = _mask_runs(nm)
+    if isinstance(out, SInt) and len(runs) == 1:
+        out.bits = ("clear", runs[0][0], runs[0][1])
+    return out
 
 
 def _upper_width(p: Path, *terms: Any) -> Optional[int]:
@@ -150,6 +158,16 @@ def _bitop_bv(p: Path, op: str, a: Any, b: Any) -> Any:
 
 def _bit_or(p: Path, a: Any, b: Any) -> Any:
     ta, tb = int_term(a), int_term(b)
+    # read-modify-write idiom: (x & ~mask) | (y & mask) with the same contiguous field
+    for x, y in ((a, b), (b, a)):
+        bx, by = getattr(x, "bits", None), getattr(y, "bits", None)
+        if bx is not None and by is not None and bx[0] == "clear" and by[0] == "within":
+            if by[1] >= bx[1] and by[1] + by[2] <= bx[1] + bx[2]:
+                return mk_int(ta + tb)
+    if isinstance(a, int) and not isinstance(a, bool) and a == 0:
+        return b
+    if isinstance(b, int) and not isinstance(b, bool) and b == 0:
+        return a
     for x, tx, y, ty in ((a, ta, b, tb), (b, tb, a, ta)):
         c = tz_of(x)
         if 0 < c < (1 << 29):
@@ -459,11 +477,19 @@ def int_to_bytes(p: Path, v: Any, length: Any, order: str, signed: bool = False)
         raise_py(ValueError, "length argument must be non-negative")
     if p.branch(z3.Or(tv < 0, tv >= (1 << (8 * n))), "to_bytes-overflow"):
         raise_py(OverflowError, "int too big to convert")
+    pv = getattr(v, "prov", None)
+    if pv is not None and pv[0] == "from_bytes" and pv[3] == n:
+        # v == from_bytes(b, o) with len(b) == n: its n-digit notation is b itself (same order) or b reversed
+        b0: SBytes = pv[1]
+        p.assumption_ids.add("A-struct")
+        if pv[2] == order:
+            return SBytes(n, b0.at, b0.name, prov=("to_bytes", tv, order, n))
+        return SBytes(n, lambda i, b0=b0: b0.at(n - 1 - i), b0.name + ".rev", prov=("to_bytes", tv, order, n))
     bts = [(tv / (1 << (8 * j))) % 256 if j else tv % 256 for j in range(n)]  # little-endian digits
     if order == "big":
         bts = bts[::-1]
     r = bytes_from_ints([SInt(t) for t in bts])
-    return SBytes(r.n, r.at, f"tobytes{n}")
+    return SBytes(r.n, r.at, f"tobytes{n}", prov=("to_bytes", tv, order, n))
 
 
 _BYTEAT = z3.Function("byte_at", z3.IntSort(), z3.IntSort(), z3.IntSort())  # digit j (LE) of a non-negative int
@@ -504,12 +530,19 @@ def int_from_bytes(p: Path, b: Any, order: str, signed: bool = False) -> Any:
             raise DeadPath()
     if n == 0:
         return 0
+    pv = getattr(b, "prov", None)
+    if pv is not None and pv[0] == "to_bytes" and pv[3] == n and pv[2] == order:
+        p.assumption_ids.add("A-struct")
+        return mk_int(pv[1])  # from_bytes(to_bytes(v, n, o), o) == v  (v was range-checked when the bytes were made)
     t: Any = None
     for k in range(n):
         pos = k if order == "little" else n - 1 - k
         term = b.at(z3.IntVal(k)) * (1 << (8 * pos)) if pos else b.at(z3.IntVal(k))
         t = term if t is None else t + term
-    return mk_int(t)
+    r = mk_int(t)
+    if isinstance(r, SInt):
+        r.prov = ("from_bytes", b, order, n)
+    return r
 
 
 # ---- struct ------------------------------------------------------------------------------------
